@@ -79,11 +79,11 @@ func NewStrListDecoder(reuseRecords bool) *StrListDecoder {
 func (d *StrListDecoder) strSlice(n uint32) []string {
 	if d.strs != nil {
 		if n > uint32(cap(d.strs)) {
-			d.strs = make([]string, 0, n)
+			d.strs = make([]string, 0, preallocCap(n))
 		}
 		return d.strs[:0]
 	}
-	return make([]string, 0, n)
+	return make([]string, 0, preallocCap(n))
 }
 
 func (d *StrListDecoder) Decode(b []byte) []string {
